@@ -110,9 +110,13 @@ inline Outcome call_driver(const Driver& d, Req& rq, Res& rs)
 inline std::set<std::string> known_set(const Plan& plan)
 {
     std::set<std::string> k;
-    std::istringstream ks(plan.get("known"));
-    std::string t;
-    while(std::getline(ks, t, ',')) k.insert(t);
+    // from the plan head and from the worker's command line (--known a,b)
+    for(const std::string& src : {plan.get("known"), sim::options().count("known") ? sim::options()["known"] : std::string()})
+    {
+        std::istringstream ks(src);
+        std::string t;
+        while(std::getline(ks, t, ',')) k.insert(t);
+    }
     return k;
 }
 
